@@ -51,6 +51,7 @@ class Env(object):
         from spyne.protocol.json import JsonDocument
         from spyne.server.null import NullServer
         from spyne.server import ServerBase
+        from spyne.server.wsgi import WsgiApplication
         from spyne.client import RemoteProcedureBase
         from spyne.auxproc import process_contexts
         from spyne.auxproc.sync import SyncAuxProc
@@ -272,6 +273,7 @@ class Program(object):
         self.null = None
         self.held = None            # a kept `_FunctionCall` object: f = server.service.<name>
         self.ostr = {}              # protocol -> NullServer(app, ostr=True)
+        self.wsgis = {}             # protocol -> WsgiApplication
         self.member_cls = None
         self.aux_svcs = []
         try:
@@ -466,6 +468,45 @@ class Program(object):
             self.servers[proto] = E.MemServer(sapp)
             self.clients[proto] = capp
         return self.servers[proto], self.clients[proto]
+
+    def call_wsgi(self, proto, pos, kw, keep=None):
+        """the same call through the real HTTP transport: an in-process WSGI request to WsgiApplication (its own result
+        handling: generator peeking, chunked join, Ignored, empty generators, fault status codes)"""
+        try:
+            return self._call_wsgi(proto, pos, kw, keep)
+        except Exception as e:
+            return None, {'exc': 'wsgi-setup:' + type(e).__name__}
+
+    def _call_wsgi(self, proto, pos, kw, keep=None):
+        from io import BytesIO
+        E = self.E
+        self.recv = None
+        self.aux_recv = []
+        server, capp = self.wire(proto)
+        if proto not in self.wsgis:
+            P = E.proto_cls[proto]
+            self.wsgis[proto] = E.WsgiApplication(E.Application(self.services(), TNS, in_protocol=P(), out_protocol=P()))
+        try:
+            keys, cvals = self.bound_args(pos, kw)
+        except TypeError:
+            return None, {'exc': 'TypeError'}
+        req = self.build_request(proto, capp, keys, [native(x, E) for x in cvals])
+        env = {'REQUEST_METHOD': 'POST', 'PATH_INFO': '/', 'QUERY_STRING': '', 'SERVER_NAME': 'c18', 'SERVER_PORT': '80',
+               'wsgi.url_scheme': 'http', 'wsgi.input': BytesIO(req), 'CONTENT_LENGTH': str(len(req)),
+               'CONTENT_TYPE': 'application/json; charset=utf-8' if base_of(proto) == 'json' else 'text/xml; charset=utf-8'}
+        status = []
+        try:
+            ret = self.wsgis[proto](env, lambda st, hd, exc_info=None: status.append(st))
+            raw = b''.join(ret)
+            if hasattr(ret, 'close'):
+                ret.close()
+        except Exception as e:          # an exception that escapes the WSGI application
+            return ({'ok': self.recv} if self.recv is not None else None), {'exc': type(e).__name__}
+        if keep is not None:
+            keep['request'], keep['response'], keep['status'] = req.decode('utf8', 'replace'), raw.decode('utf8', 'replace'), status[:1]
+        is_error = not (status and status[0].startswith('2'))
+        out = self.parse_response(proto, capp, raw, is_error if base_of(proto) == 'json' else None)
+        return ({'ok': self.recv} if self.recv is not None else None), out
 
     def client_ctx(self, capp):
         E = self.E
@@ -1229,6 +1270,9 @@ def boundary_specs():
     add('bare', ['p'], ['P'], one, ['str'], {'k': 'error', 'cls': 'KeyError'}, bareArg=P2)
     add('bare', ['q'], ['Q'], ret_one('Q'), ['Q'], {'k': 'pick', 'idx': [0]}, bareArg=['Q', ['x', 'n', 'p', 'f']])
     add('wrapped', ['n'], ['int'], ret_one('iter'), ['iter'], {'k': 'gen', 'v': []})
+    add('out_bare', ['n'], ['int'], ret_one('iter'), ['iter'], {'k': 'gen', 'v': []})
+    add('bare', [], [], ret_one('iter'), ['iter'], {'k': 'gen', 'v': []})
+    add('wrapped', [], [], ret_one('iter'), ['iter'], {'k': 'gen', 'v': [{'i': '7'}]})
     add('wrapped', ['n'], ['int'], ret_one('iter'), ['iter'], {'k': 'gen', 'v': [{'i': '0'}, {'i': '1'}, {'i': '2'}]})
     add('wrapped', ['a'], ['int'], one, ['int'], {'k': 'fault', 'code': 'Client.Custom'}, with_ctx=True)
     add('wrapped', ['a'], ['int'], one, ['int'], {'k': 'error'})
@@ -1272,6 +1316,7 @@ class Runner(object):
         self.ctx, self.E = ctx, env()
         self.Q = []          # (query, impl)
         self.t3_fail = 0
+        self.n_prog = 0
 
     def add(self, q, impl, nontrivial=True):
         self.Q.append((q, impl))
@@ -1337,6 +1382,24 @@ class Runner(object):
                         ctx.cov['traces_validated_against_impl'] += 1
                         ok = (wout == exp) and (wrecv == recv)
                         ctx.hit('wire:%s:%s' % (proto, 'agree' if ok else 'differ'))
+                        k_ = spec['script']['k']
+                        special = k_ in ('gen', 'ignored', 'fault', 'error') or no_return(sig) or \
+                            (k_ == 'const' and spec['script'].get('v') is None)
+                        if tag == 'pos' and proto in PROTOS and (special or proto == PROTOS[self.n_prog % 3] or ctx.thorough):
+                            # T3-j the real HTTP transport: WsgiApplication handles the result itself before it serialises
+                            keep2 = {}
+                            hrecv, hout = prog.call_wsgi(proto, pos, kw, keep2)
+                            self.add(dict(q, op='wire.call', proto=proto, config='wsgi-' + proto), {'recv': hrecv, 'out': hout})
+                            okh = (hout == exp) and (hrecv == recv)
+                            ctx.hit('wsgi:%s:%s' % (proto, 'agree' if okh else 'differ'))
+                            if not okh:
+                                self.t3_fail += 1
+                                ctx.hit('t3-fail:wsgi')
+                                ctx.finding('null-vs-wsgi:%s:%s' % (proto, k_ if special else 'result'),
+                                            'NullServer and WsgiApplication(%s) disagree: direct caller %s, HTTP client %s'
+                                            % (proto, json.dumps(out)[:120], json.dumps(hout)[:120]),
+                                            dict(rep, op='null-vs-wsgi', proto=proto, null={'recv': recv, 'out': out},
+                                                 wsgi={'recv': hrecv, 'out': hout}, expected_wire=exp, **keep2))
                         if tag == 'pos' or (tag == 'kw' and ctx.thorough):
                             # T3-g the string mode: NullServer(app, ostr=True) returns the reply a wire client gets
                             oout = prog.call_ostr(proto, pos, kw)
@@ -1714,6 +1777,14 @@ def replay(ctx, obj):
         if not ok:
             print('    request :', keep.get('request', '')[:600])
             print('    response:', keep.get('response', '')[:600])
+    if op == 'null-vs-wsgi':
+        for p in protos:
+            keep = {}
+            hrecv, hout = prog.call_wsgi(p, pos, kw, keep)
+            okh = hout == wire_view(spec['sig'], out, facts.get(base_of(p))) and hrecv == recv
+            bad += not okh
+            print('WsgiApplication %-5s: received=%s result=%s  %s' % (p, json.dumps(hrecv), json.dumps(hout), 'agrees' if okh else 'DIFFERS'))
+            print('    status  :', keep.get('status'), ' response:', keep.get('response', '')[:400])
     q = {'op': 'null.call', 'sig': spec['sig'], 'script': spec['script'], 'pos': pos, 'kw': kw}
     try:
         print('model NullServer  :', json.dumps(ctx.model([q])[0]))
